@@ -38,7 +38,7 @@ scs = st.fixed_dictionaries({'N': st.sampled_from([None, 50, 50, 2, 3]), 'maxdep
 # wait_until_idle() calls from concurrent actors; no timeouts here (the call-history world above covers those)
 from bvt.gen import Profile, scenario  # noqa: E402
 
-P_ENGINE = Profile(min_buses=2, max_buses=3, par=0.15, fwd=0.3, hist=[None, 1, 1, 2, 3], maxdepth=[2], wild=0.1, raises=0.1, cap=40, max_actors=3, max_actor_ops=6, actor_ops=['disp', 'disp', 'burst', 'sleep', 'sleep', 'idle', 'idle', 'idle', 'yield', 'expect'], modes=['await', 'await', 'await', 'later', 'ff'], burst=[2, 3], durs=[0.05, 0.1, 0.1, 0.25, 0.3], sync=0.1, min_handlers=2)
+P_ENGINE = Profile(min_buses=2, max_buses=3, par=0.15, fwd=0.3, hist=[None, 1, 1, 2, 3], maxdepth=[2], wild=0.1, raises=0.15, raise_kinds=['VE', 'custom', 'chain', 'CE', 'CE'], cap=40, max_actors=3, max_actor_ops=6, actor_ops=['disp', 'disp', 'burst', 'sleep', 'sleep', 'idle', 'idle', 'idle', 'yield', 'expect'], modes=['await', 'await', 'await', 'later', 'ff'], burst=[2, 3], durs=[0.05, 0.1, 0.1, 0.25, 0.3], sync=0.3, min_handlers=2)
 
 
 def _run_engine_case(sc):
